@@ -56,6 +56,8 @@ def main():
         rc, out = sh(["git", "apply", patch], cwd=wt)
         assert rc == 0, "patch does not apply: " + out
         touched = sorted(set(os.path.dirname(l[6:]) or "." for l in open(patch) if l.startswith("+++ b/")))
+        # only directories that are Go packages (capnpc-go/templates holds template text only)
+        touched = [t for t in touched if any(f.endswith(".go") for f in os.listdir(os.path.join(wt, t)))]
         pk = " ".join("./" + t + "/" for t in touched)
         rcs, outs = sh("go build ./... && go test -vet=off -count=1 %s" % pk, cwd=wt)
         meta["suite_with_change"] = "pass" if rcs == 0 else "FAIL"
